@@ -189,6 +189,39 @@ def run(ctx):
                 g = init.gate_edges(pred)
                 ctx.check(bool(g) and init.only_through(i, g), R5, 'init:aes_factory(cbc,key,mac,key):mac-nonempty',
                           'CBC encryption can be configured with an empty MAC name', init.loc(i))
+    # which MAC the legacy "encryptor" spelling selects: the default algorithm only for the exact word, a named one by cutting off exactly the prefix that was tested
+    lit_of = lambda e: [init.N(j).get('s') for j in init.walk(e) if init.N(j)['k'] == 'StringLiteral']
+    cmps = [i for i in init.calls() if q.short_of(init.callee(i) or '') == 'compare' and len(init.args(i)) == 3]
+    for i in cmps:
+        a_ = init.args(i)
+        lits = lit_of(a_[2])
+        ctx.check(init.const_value(a_[0]) == 0 and len(lits) == 1 and init.const_value(a_[1]) == len(lits[0]), R5, 'init:prefix-test:%s:length-of-the-literal' % (lits[0] if lits else '?'),
+                  'a configuration value is compared with %r over %s characters: the test is a different prefix than the one written' % (lits[:1], init.const_value(a_[1])), init.loc(i))
+    for i in news:
+        t = model.strip_targs(init.N(i).get('nt', ''))
+        ctor = [c for c in init.N(i)['ch'] if init.N(init.strip(c))['k'] == 'CXXConstructExpr']
+        if not t.endswith('hmac_factory') or not ctor:
+            continue
+        a_ = init.args(init.strip(ctor[0]))
+        if len(a_) != 2:
+            continue
+        if lit_of(a_[0]):
+            # a spelled-out default algorithm: only for the exact word
+            def exact(atom, pol):
+                n_ = init.N(atom)
+                return n_['k'] == 'CXXOperatorCallExpr' and n_.get('op') in ('==', '!=') and lit_of(atom) == ['hmac'] and pol is (n_['op'] == '==')
+            g_ex = init.gate_edges(exact)
+            ctx.check(bool(g_ex) and init.only_through(i, g_ex), R5, 'init:hmac_factory(%s):only-for-the-exact-word-hmac' % lit_of(a_[0])[0],
+                      'the default MAC algorithm is selected by something other than encryptor == "hmac": a value such as "hmac-sha256" silently gets %s' % lit_of(a_[0])[0], init.loc(i))
+        else:
+            subs = [j for j in q.expr_calls_deep(init, a_[0]) if q.short_of(init.callee(j) or '') == 'substr']
+            if subs:
+                k_ = init.const_value(init.args(subs[0])[0])
+                pre = [c_ for c_ in cmps if init.const_value(init.args(c_)[1]) == k_ and init.ref_of(init.obj(c_)) == init.ref_of(init.obj(subs[0]))]
+                g_pre = init.gate_edges(lambda atom, pol: init.N(atom)['k'] == 'BinaryOperator' and init.N(atom).get('op') in ('==', '!=') and any(c_ in set(init.walk(atom)) for c_ in pre) and
+                                        init.const_value(init.N(atom)['ch'][1]) == 0 and pol is (init.N(atom)['op'] == '==')) if pre else []
+                ctx.check(bool(pre) and bool(g_pre) and init.only_through(i, g_pre), R5, 'init:hmac_factory(substr(%s)):cuts-exactly-the-tested-prefix' % k_,
+                          'the algorithm name is what follows %s characters, but no prefix of that length was tested on this path' % k_, init.loc(i))
     ctx.require(n_aes >= 1, 'C05.R5: split-key aes_factory construction not found in session_pool::init')
     hc = [f for f in P.fns.values() if f.brecord == 'cppcms::sessions::impl::hmac_cipher' and f.kind == 'ctor']
     ctx.require(hc, 'C05.R5: hmac_cipher constructor not found')
